@@ -1,0 +1,332 @@
+//go:build verif
+
+// Contracts for package evidence (data) — property C19 (allegations: verdicts follow votes,
+// frozen stays frozen, penalties bounded).
+// Comment-only file, read by /verif/govc.
+
+package evidence
+
+// ---------------------------------------------------------------- ghost model of the store
+//
+// The store keeps five families of records under one State prefix. The model has one array of raw
+// bytes per family (an absent record reads as zero-length bytes):
+//   evS(es)[a]  suspicious-validator record of address bytes a       key "_ssvk_<address>"
+//   evV(es)[a]  validator-status record of address bytes a           key "_vss_<address>"
+//   evR(es)[id] allegation request id                                key "_ark_<id>"
+//   evT(es)     the allegation tracker                               key "_atark"
+//   evO(es)[k]  everything else (vote blocks, cumulative vote), by the key itself
+// kfam(k)/kid(k): family and index of a store-relative key (strings are uninterpreted in the engine and
+// fmt.Sprintf is not modelled, so the family of a key is fixed by the assumed contracts of the key builders).
+//@ model evS(*EvidenceStore) array[string]bytes
+//@ model evV(*EvidenceStore) array[string]bytes
+//@ model evR(*EvidenceStore) array[string]bytes
+//@ model evT(*EvidenceStore) bytes
+//@ model evO(*EvidenceStore) array[string]bytes
+//@ ghost func kfam(k string) int
+//@ ghost func kid(k string) string
+//@ ghost func evGet(es *EvidenceStore, k string) bytes = kfam(k) == 1 ? evS(es)[kid(k)] : (kfam(k) == 2 ? evV(es)[kid(k)] : (kfam(k) == 3 ? evR(es)[kid(k)] : (kfam(k) == 4 ? evT(es) : evO(es)[k])))
+
+// Typed views: a record is what the serializer decodes from the stored bytes.
+//
+// suspicious-validator (history) record of address a
+//@ ghost func suspHas(es *EvidenceStore, a bytes) bool = len(evS(es)[str(a)]) != 0 && deserok(evS(es)[str(a)], "LastValidatorHistory")
+//@ ghost func suspRec(es *EvidenceStore, a bytes) LastValidatorHistory = deser(evS(es)[str(a)], "LastValidatorHistory")
+// a history record is frozen: never released, or released not after it was (re)frozen
+//@ ghost func frozenRec(r LastValidatorHistory) bool = r.ReleaseAt == nil || !(*r.ReleaseAt > *r.FrozenAt)
+// frozen(es, a): validator a has a suspicious-validator record and that record is frozen
+//@ ghost func frozen(es *EvidenceStore, a bytes) bool = suspHas(es, a) && frozenRec(suspRec(es, a))
+
+// representation invariant of the suspicious-validator family: a record is stored under its own address, it
+// carries the time it was frozen at, and (engine model: a decoded record keeps its pointers) the time cells it
+// points to exist
+//@ ghost func wfSuspAt(es *EvidenceStore, a bytes) bool = suspHas(es, a) ==> (str(suspRec(es, a).Address) == str(a) && suspRec(es, a).FrozenAt != nil && allocated(suspRec(es, a).FrozenAt) && allocated(suspRec(es, a).ReleaseAt))
+//@ ghost func wfSusp(es *EvidenceStore) bool = forall a bytes :: wfSuspAt(es, a)
+// releaseOK(r, days, now): record r may be released at block time now (ValidatorReleaseTime = days)
+//@ ghost func releaseOK(r LastValidatorHistory, days int, now int) bool = r.Status == MISSED_REQUIRED_VOTES || (r.Status == BYZANTINE_FAULT && now > @time_adddate(*r.FrozenAt, 0, 0, days))
+
+// guiltyNow(es, a): a carries a frozen, never released BYZANTINE_FAULT record (what a GUILTY verdict writes)
+//@ ghost func guiltyNow(es *EvidenceStore, a bytes) bool = suspHas(es, a) && suspRec(es, a).Status == BYZANTINE_FAULT && suspRec(es, a).ReleaseAt == nil
+// the same over the address-bytes-as-string index k of evS
+//@ ghost func guiltyNowK(es *EvidenceStore, k string) bool = len(evS(es)[k]) != 0 && deserok(evS(es)[k], "LastValidatorHistory") && deser(evS(es)[k], "LastValidatorHistory").Status == BYZANTINE_FAULT && deser(evS(es)[k], "LastValidatorHistory").ReleaseAt == nil
+// sameReq(r, q): request records r and q agree on everything but the status
+//@ ghost func sameReq(r AllegationRequest, q AllegationRequest) bool = r.ID == q.ID && str(r.MaliciousAddress) == str(q.MaliciousAddress) && str(r.ReporterAddress) == str(q.ReporterAddress) && r.Votes == q.Votes
+
+// validator-status record of address a
+//@ ghost func vstatHas(es *EvidenceStore, a bytes) bool = len(evV(es)[str(a)]) != 0 && deserok(evV(es)[str(a)], "ValidatorStatus")
+//@ ghost func vstatRec(es *EvidenceStore, a bytes) ValidatorStatus = deser(evV(es)[str(a)], "ValidatorStatus")
+// activeVal(es, a): validator a has a status record that says active
+//@ ghost func activeVal(es *EvidenceStore, a bytes) bool = vstatHas(es, a) && vstatRec(es, a).IsActive
+
+// allegation request id
+//@ ghost func reqHas(es *EvidenceStore, id string) bool = len(evR(es)[id]) != 0 && deserok(evR(es)[id], "AllegationRequest")
+//@ ghost func reqRec(es *EvidenceStore, id string) AllegationRequest = deser(evR(es)[id], "AllegationRequest")
+// representation invariant of a request record: stored under its own id; (engine model: a decoded record keeps
+// its pointers) the vote list and the vote objects it points to exist
+//@ ghost func wfReqAt(es *EvidenceStore, id string) bool = reqHas(es, id) ==> (reqRec(es, id).ID == id && allocated(arr(reqRec(es, id).Votes)) && (forall j int :: 0 <= j && j < len(reqRec(es, id).Votes) ==> reqRec(es, id).Votes[j] != nil && allocated(reqRec(es, id).Votes[j])))
+// distinctVotes(r): no address occurs twice in the vote list of r (each validator counts at most once)
+//@ ghost func distinctVotes(r AllegationRequest) bool = forall i int, j int :: 0 <= i && i < len(r.Votes) && 0 <= j && j < len(r.Votes) && i != j ==> str(r.Votes[i].Address) != str(r.Votes[j].Address)
+
+// cntCh(vs, n, c): number of the first n votes of the list vs whose choice is c (recursive definition: two axioms;
+// the votes are read in the heap of the entry state of the function under verification)
+//@ ghost func cntCh(vs []*AllegationVote, n int, c int) int
+//@ axiom forall vs []*AllegationVote, n int, c int :: n <= 0 ==> cntCh(vs, n, c) == 0                                                   // C19.count-def
+//@ axiom forall vs []*AllegationVote, n int, c int :: n > 0 ==> cntCh(vs, n, c) == cntCh(vs, n - 1, c) + (vs[n - 1].Choice == c ? 1 : 0)   // C19.count-def
+// yesVotes(r)/noVotes(r): the tally of request r
+//@ ghost func yesVotes(r AllegationRequest) int = cntCh(r.Votes, len(r.Votes), YES)
+//@ ghost func noVotes(r AllegationRequest) int = cntCh(r.Votes, len(r.Votes), NO)
+
+// the tracker's request-id set (engine model: the tracker decoded from the store keeps its map reference)
+//@ ghost func trackerMap(es *EvidenceStore) map[string]bool = deser(evT(es), "AllegationTracker").Requests
+
+// constants of this package, for contracts of other packages
+//@ ghost func evYES() int = YES
+//@ ghost func evNO() int = NO
+//@ ghost func evVOTING() int = VOTING
+//@ ghost func evGUILTY() int = GUILTY
+//@ ghost func evINNOCENT() int = INNOCENT
+//@ ghost func evMISSED() int = MISSED_REQUIRED_VOTES
+//@ ghost func evBYZ() int = BYZANTINE_FAULT
+
+// ---------------------------------------------------------------- assumed: raw get/set layer and key builders
+//
+// Get/Set/delete are the store's view of its State prefix (rests on C09's State contracts: State.Get
+// never returns an error because ChainState.Get does not). Assumed, like balance.get/set.
+//@ assume func (*EvidenceStore).Get
+//@   modifies nothing
+//@   ensures err == nil && result0 == evGet(es, str(key))
+
+//@ assume func (*EvidenceStore).GetVersioned
+//@   modifies nothing
+
+//@ assume func (*EvidenceStore).Set
+//@   modifies evS(es), evV(es), evR(es), evT(es), evO(es), vHas(es.state), vVal(es.state)
+//@   ensures evS(es) == ((err == nil && kfam(str(key)) == 1) ? old(evS(es))[kid(str(key)) := value] : old(evS(es)))
+//@   ensures evV(es) == ((err == nil && kfam(str(key)) == 2) ? old(evV(es))[kid(str(key)) := value] : old(evV(es)))
+//@   ensures evR(es) == ((err == nil && kfam(str(key)) == 3) ? old(evR(es))[kid(str(key)) := value] : old(evR(es)))
+//@   ensures evT(es) == ((err == nil && kfam(str(key)) == 4) ? value : old(evT(es)))
+//@   ensures (kfam(str(key)) >= 1 && kfam(str(key)) <= 4) ==> evO(es) == old(evO(es))
+//@   ensures forall k string :: k != str(key) ==> evO(es)[k] == old(evO(es))[k]
+
+// delete: the record reads as absent afterwards, or (D-09a, tombstone leak inside a block) as the tombstone marker
+//@ assume func (*EvidenceStore).delete
+//@   modifies evS(es), evV(es), evR(es), evT(es), evO(es), vHas(es.state), vVal(es.state)
+//@   ensures kfam(str(key)) != 1 ==> evS(es) == old(evS(es))
+//@   ensures kfam(str(key)) != 2 ==> evV(es) == old(evV(es))
+//@   ensures kfam(str(key)) != 3 ==> evR(es) == old(evR(es))
+//@   ensures kfam(str(key)) != 4 ==> evT(es) == old(evT(es))
+//@   ensures forall j string :: j != kid(str(key)) ==> evS(es)[j] == old(evS(es))[j] && evV(es)[j] == old(evV(es))[j] && evR(es)[j] == old(evR(es))[j]
+//@   ensures forall k string :: k != str(key) ==> evO(es)[k] == old(evO(es))[k]
+//@   ensures (kfam(str(key)) >= 1 && kfam(str(key)) <= 4) ==> evO(es) == old(evO(es))
+// a deleted request no longer decodes (absent, or the tombstone marker which is not a serialised request); a failed delete changes nothing
+//@   ensures kfam(str(key)) == 3 ==> evR(es)[kid(str(key))] == old(evR(es))[kid(str(key))] || len(evR(es)[kid(str(key))]) == 0 || !deserok(evR(es)[kid(str(key))], "AllegationRequest")
+
+// fmt.Sprintf is uninterpreted in the engine: the formatting of the keys (distinct literal prefixes, %s of an
+// Address is Address.String() which is injective) is assumed
+//@ assume func (*EvidenceStore).getSuspiciousValidatorKey
+//@   modifies nothing
+//@   ensures kfam(str(result)) == 1 && kid(str(result)) == str(validatorAddress)
+
+//@ assume func (*EvidenceStore).getValidatorStatusKey
+//@   modifies nothing
+//@   ensures kfam(str(result)) == 2 && kid(str(result)) == str(validatorAddress)
+
+//@ assume func (*EvidenceStore).getAllegationRequestKey
+//@   modifies nothing
+//@   ensures kfam(str(result)) == 3 && kid(str(result)) == requestID
+
+//@ assume func (*EvidenceStore).getAllegationTrackerKey
+//@   modifies nothing
+//@   ensures kfam(str(result)) == 4
+
+//@ assume func (*EvidenceStore).getVoteBlockKey
+//@   modifies nothing
+//@   ensures kfam(str(result)) == 0
+
+//@ assume func (*EvidenceStore).getCumulativeVote
+//@   modifies nothing
+//@   ensures kfam(str(result)) == 0
+
+//@ assume func (*EvidenceStore).getSuspiciousVL
+//@   modifies nothing
+//@   ensures kfam(str(result)) == 0
+
+// ---------------------------------------------------------------- history records
+
+//@ func (*LastValidatorHistory).IsFrozen
+//@   requires lvh != nil
+//@   modifies nothing
+//@   ensures result == frozenRec(*lvh)                                                                       // C19.frozen
+
+//@ func (*EvidenceStore).IsFrozenValidator
+//@   requires es != nil
+//@   modifies nothing
+//@   ensures result == frozen(es, validatorAddress)                                                          // C19.frozen
+
+//@ func (*EvidenceStore).IsActiveValidator
+//@   requires es != nil
+//@   modifies nothing
+//@   ensures result == activeVal(es, addr)                                                                   // C19.active
+
+// ReleaseReady: a MISSED_REQUIRED_VOTES record is releasable at once, a BYZANTINE_FAULT record only when the
+// block time is after FrozenAt + ValidatorReleaseTime days ((time.Time).AddDate is the uninterpreted time_adddate).
+//@ func (*LastValidatorHistory).ReleaseReady
+//@   requires lvh != nil && options != nil
+//@   modifies nothing
+//@   ensures result0 == (err == nil)                                                                          // C19.release-ready
+//@   ensures result0 == releaseOK(*lvh, options.ValidatorReleaseTime, blockCreatedAt)                         // C19.release-ready
+
+//@ func NewLastValidatorHistory
+//@   modifies nothing
+//@   ensures result != nil && fresh(result) && str(result.Address) == str(validatorAddress) && result.Status == status && result.FrozenHeight == height && result.FrozenAt == createdAt && result.ReleaseAt == nil && result.ReleaseHeight == 0
+
+// ---------------------------------------------------------------- typed accessors (proved above Get/Set)
+
+//@ func (*EvidenceStore).GetSuspiciousValidator
+//@   requires es != nil
+//@   modifies nothing
+//@   ensures err == nil ==> result0 != nil && fresh(result0)
+//@   ensures err != nil ==> result0 == nil
+//@   ensures height == 0 ==> (err == nil) == suspHas(es, validatorAddress)                                    // C19.frozen
+//@   ensures height == 0 && err == nil ==> *result0 == suspRec(es, validatorAddress)                          // C19.frozen
+
+//@ func (*EvidenceStore).UpdateSuspiciousValidator
+//@   requires es != nil && lvh != nil
+//@   modifies evS(es)[str(lvh.Address)], vHas(es.state), vVal(es.state)
+//@   ensures err == nil ==> suspHas(es, lvh.Address) && suspRec(es, lvh.Address) == *lvh                      // C19.frozen
+//@   ensures err != nil ==> evS(es)[str(lvh.Address)] == old(evS(es))[str(lvh.Address)]
+
+// CreateSuspiciousValidator overwrites whatever record the address had with a fresh frozen one.
+//@ func (*EvidenceStore).CreateSuspiciousValidator
+//@   requires es != nil
+//@   modifies evS(es)[str(validatorAddress)], vHas(es.state), vVal(es.state)
+//@   ensures result0 != nil && fresh(result0) && str(result0.Address) == str(validatorAddress) && result0.Status == status && result0.FrozenAt == createdAt && result0.ReleaseAt == nil
+//@   ensures err == nil ==> frozen(es, validatorAddress) && suspRec(es, validatorAddress).Status == status && suspRec(es, validatorAddress).FrozenAt == createdAt && suspRec(es, validatorAddress).FrozenHeight == height && suspRec(es, validatorAddress).ReleaseAt == nil   // C19.guilty-frozen
+//@   ensures err != nil ==> evS(es)[str(validatorAddress)] == old(evS(es))[str(validatorAddress)]
+//@   claims old(frozen(es, validatorAddress)) && old(suspRec(es, validatorAddress)).Status == BYZANTINE_FAULT ==> suspRec(es, validatorAddress).Status == BYZANTINE_FAULT   // C19.no-downgrade
+
+// HandleRelease: only a frozen validator whose record is ReleaseReady at the block time is released.
+//@ func (*EvidenceStore).HandleRelease
+//@   requires es != nil && options != nil
+//@   requires wfSuspAt(es, validatorAddress)                                                                  // C19.store-wf
+//@   modifies evS(es)[str(validatorAddress)], vHas(es.state), vVal(es.state)
+//@   ensures err == nil ==> old(frozen(es, validatorAddress))                                                 // C19.release-guard
+//@   ensures err == nil ==> old(releaseOK(suspRec(es, validatorAddress), options.ValidatorReleaseTime, blockCreatedAt))   // C19.release-ready
+//@   ensures err == nil ==> suspHas(es, validatorAddress) && suspRec(es, validatorAddress).Status == old(suspRec(es, validatorAddress)).Status && suspRec(es, validatorAddress).FrozenAt == old(suspRec(es, validatorAddress)).FrozenAt && suspRec(es, validatorAddress).ReleaseHeight == blockHeight && suspRec(es, validatorAddress).ReleaseAt != nil && *suspRec(es, validatorAddress).ReleaseAt == blockCreatedAt   // C19.release-recorded
+//@   ensures err != nil ==> evS(es)[str(validatorAddress)] == old(evS(es))[str(validatorAddress)]             // C19.release-guard
+//@   ensures wfSuspAt(es, validatorAddress)                                                                   // C19.store-wf
+
+//@ func (*EvidenceStore).GetValidatorStatus
+//@   requires es != nil
+//@   modifies nothing
+//@   ensures (err == nil) == vstatHas(es, addr)                                                               // C19.active
+//@   ensures err == nil ==> result0 != nil && fresh(result0) && *result0 == vstatRec(es, addr)                // C19.active
+//@   ensures err != nil ==> result0 == nil
+
+//@ func (*EvidenceStore).SetValidatorStatus
+//@   requires es != nil
+//@   modifies evV(es)[str(addr)], vHas(es.state), vVal(es.state)
+//@   ensures err != nil ==> evV(es)[str(addr)] == old(evV(es))[str(addr)]
+//@   ensures err == nil ==> (activeVal(es, addr) ==> isActive)                                                // C19.active
+
+//@ func (*EvidenceStore).GetAllegationRequest
+//@   requires es != nil
+//@   modifies nothing
+//@   ensures (err == nil) == reqHas(es, ID)                                                                   // C19.request
+//@   ensures err == nil ==> result0 != nil && fresh(result0) && *result0 == reqRec(es, ID)                    // C19.request
+//@   ensures err != nil ==> result0 == nil
+
+//@ func (*EvidenceStore).SetAllegationRequest
+//@   requires es != nil && ar != nil
+//@   modifies evR(es)[ar.ID], vHas(es.state), vVal(es.state)
+//@   ensures err == nil ==> reqHas(es, ar.ID) && reqRec(es, ar.ID) == *ar                                     // C19.request
+//@   ensures err != nil ==> evR(es)[ar.ID] == old(evR(es))[ar.ID]
+
+//@ func (*EvidenceStore).DeleteAllegationRequest
+//@   requires es != nil
+//@   modifies evR(es)[ID], vHas(es.state), vVal(es.state)
+//@   ensures evR(es)[ID] == old(evR(es))[ID] || !reqHas(es, ID)                                               // C19.request
+
+//@ func (*EvidenceStore).IsRequestIDBusy
+//@   requires es != nil
+//@   modifies nothing
+//@   ensures result == reqHas(es, ID)                                                                         // C19.request
+
+//@ func (*EvidenceStore).GetAllegationTracker
+//@   requires es != nil
+//@   modifies nothing
+//@   ensures err == nil ==> result0 != nil && fresh(result0)
+//@   ensures err != nil ==> result0 == nil
+//@   ensures err == nil && len(evT(es)) != 0 ==> *result0 == deser(evT(es), "AllegationTracker")              // C19.tracker
+//@   ensures err == nil && len(evT(es)) == 0 ==> result0.Requests != nil && fresh(result0.Requests) && (forall k string :: !has(result0.Requests, k))   // C19.tracker
+
+//@ func (*EvidenceStore).SetAllegationTracker
+//@   requires es != nil && at != nil
+//@   modifies evT(es), vHas(es.state), vVal(es.state)
+
+//@ func NewAllegationRequest
+//@   modifies nothing
+//@   ensures result != nil && fresh(result) && result.ID == ID && str(result.ReporterAddress) == str(reporterAddress) && str(result.MaliciousAddress) == str(maliciousAddress) && result.BlockHeight == blockHeight && result.Status == VOTING && len(result.Votes) == 0
+
+// ---------------------------------------------------------------- allegation requests: open, vote, clean
+
+// CheckRequestExists walks the committed requests through State.IterateRange (IAVL range scan of the last
+// committed tree: requests opened earlier in the same block are invisible to it). Not modelled: assumed read-only.
+//@ assume func (*EvidenceStore).CheckRequestExists
+//@   modifies nothing
+
+// CleanTracker deletes duplicate requests (same accused address) of the stored tracker; it edits only its own
+// copy of the tracker. It touches nothing but request records.
+// (engine model: the tracker decoded from the store keeps its map reference, hence the mapof location)
+//@ func (*EvidenceStore).CleanTracker
+//@   requires es != nil
+//@   modifies evR(es), vHas(es.state), vVal(es.state), mapof(trackerMap(es))
+//@   ensures forall id string :: reqHas(es, id) ==> evR(es)[id] == old(evR(es))[id]                           // C19.request
+//@   invariant loop2: forall id string :: reqHas(es, id) ==> evR(es)[id] == old(evR(es))[id]                  // C19.request
+//@   invariant loop1: isnew(requestIdList) && at != nil && isnew(at) && (at.Requests == old(trackerMap(es)) || isnew(at.Requests))
+//@   invariant loop2: isnew(requestIdList) && at != nil && isnew(at) && (at.Requests == old(trackerMap(es)) || isnew(at.Requests))
+
+// PerformAllegation: a request id that is in use is never overwritten (its votes would be lost);
+// only request records and the tracker change.
+// (engine model: the tracker decoded from the store keeps its map reference, hence the mapof location)
+//@ func (*EvidenceStore).PerformAllegation
+//@   requires es != nil
+//@   modifies evR(es), evT(es), vHas(es.state), vVal(es.state), mapof(trackerMap(es))
+//@   ensures err == nil ==> !old(reqHas(es, ID))                                                              // C19.request-id-unique
+
+// Vote: one vote per address and request, YES or NO only, only while the request is open; the stored
+// vote list is a permutation (the code sorts it by address) of the old list plus exactly (voteAddress, choice).
+//@ func (*EvidenceStore).Vote
+//@   requires es != nil
+//@   requires wfReqAt(es, requestID)                                                                          // C19.store-wf
+//@   modifies evR(es)[requestID], vHas(es.state), vVal(es.state)
+//@   ensures err == nil ==> old(reqHas(es, requestID))                                                        // C19.vote-open
+//@   ensures err == nil ==> choice == YES || choice == NO                                                     // C19.vote-choice
+//@   ensures err == nil ==> old(reqRec(es, requestID)).Status != GUILTY && old(reqRec(es, requestID)).Status != INNOCENT   // C19.vote-open
+//@   ensures err == nil ==> forall j int :: 0 <= j && j < old(len(reqRec(es, requestID).Votes)) ==> old(str(reqRec(es, requestID).Votes[j].Address)) != str(voteAddress)   // C19.vote-once
+//@   ensures err == nil ==> reqHas(es, requestID) && len(reqRec(es, requestID).Votes) == old(len(reqRec(es, requestID).Votes)) + 1   // C19.vote-append
+//@   ensures err == nil ==> exists k int :: 0 <= k && k < len(reqRec(es, requestID).Votes) && str(reqRec(es, requestID).Votes[k].Address) == str(voteAddress) && reqRec(es, requestID).Votes[k].Choice == choice   // C19.vote-append
+// every old vote object is still in the list (vote objects themselves are not in the modifies clause: unchanged)
+//@   ensures err == nil ==> forall j int :: 0 <= j && j < old(len(reqRec(es, requestID).Votes)) ==> exists k int :: 0 <= k && k < len(reqRec(es, requestID).Votes) && reqRec(es, requestID).Votes[k] == old(reqRec(es, requestID).Votes[j])   // C19.vote-append
+// and nothing else was added: every entry of the new list is the new vote or an old vote object
+//@   ensures err == nil ==> forall k int :: 0 <= k && k < len(reqRec(es, requestID).Votes) ==> (str(reqRec(es, requestID).Votes[k].Address) == str(voteAddress) && reqRec(es, requestID).Votes[k].Choice == choice) || (exists j int :: 0 <= j && j < old(len(reqRec(es, requestID).Votes)) && reqRec(es, requestID).Votes[k] == old(reqRec(es, requestID).Votes[j]))   // C19.vote-append
+//@   ensures err == nil && old(distinctVotes(reqRec(es, requestID))) ==> distinctVotes(reqRec(es, requestID))   // C19.vote-once
+//@   ensures err == nil ==> reqRec(es, requestID).Status == old(reqRec(es, requestID)).Status && str(reqRec(es, requestID).MaliciousAddress) == old(str(reqRec(es, requestID).MaliciousAddress))   // C19.vote-append
+//@   ensures err != nil ==> evR(es)[requestID] == old(evR(es))[requestID]                                     // C19.vote-open
+//@   ensures wfReqAt(es, requestID)                                                                           // C19.store-wf
+//@   invariant loop1: 0 <= $i && $i <= len(ar.Votes)                                                          // C19.vote-once
+//@   invariant loop1: forall j int :: 0 <= j && j < $i ==> str(ar.Votes[j].Address) != str(voteAddress)       // C19.vote-once
+
+// ---------------------------------------------------------------- iteration over the frozen validators / cumulative votes
+
+// IterateSuspiciousValidators walks the committed "_ssvk_" records through State.IterateRange and hands the frozen
+// ones to fn (IAVL range scan, not modelled): assumed iterator, read-only, yields frozen history records.
+//@ assume func (*EvidenceStore).IterateSuspiciousValidators
+//@   iterator
+//@   modifies nothing
+//@   yields y0 != nil && frozenRec(*y0)
+
+//@ func (*EvidenceStore).GetCumulativeVote
+//@   requires es != nil
+//@   modifies nothing
+//@   ensures err == nil ==> result0 != nil && fresh(result0)
+//@   ensures err != nil ==> result0 == nil
